@@ -2,6 +2,7 @@ import TlsProofs.Cache
 import TlsProofs.Conc
 import TlsProofs.ConcCache
 import TlsProofs.ConcInv
+import TlsProofs.ConcRsa
 import TlsModel.Gen.Locks
 /-
   C18 — shared objects stay correct under every thread interleaving.
@@ -145,7 +146,7 @@ example : ∃ c : Cfg Nat Nat,
   · by_cases h1 : t = 1
     · subst h1; rfl
     · have : ¬ t < 2 := by omega
-      simp [setTh, h0, h1, initCfg, this]
+      simp only [setTh, h0, h1, initCfg, this, if_false]
 
 example : AllSharedAccessInsideLock (σ := Nat) (ρ := Nat)
     (fun t => if t < 2 then [[Act.loc (· + 10), Act.acq, Act.sh (fun s l => (s + 1, l + s)), Act.rel]] else []) := by
@@ -244,23 +245,21 @@ theorem concurrent_cache_correct {ρ : Type} (res : ρ → List Out) (maxEntries
 
 /-! ## private-key operations on a shared key under every interleaving -/
 
-/-- Threads calling `_rawPrivateKeyOp` on one key.  The shared state `σ` is the blinding pair,
-    `good` its invariant (the pair is unset or a matching blinder/unblinder), `stepR m` the
-    sequential model of one call (take the pair, square it, return the unblinded result) and
-    `correct m` the mathematical result; `hgood` is the algebra of blinding (the subject of
-    C10/C11, a hypothesis here).  `sem` is any statement-level semantics with the action kinds
-    generated from the source and `stepR` as sequential composition.  Then after every complete
-    interleaving the pair still satisfies the invariant and every thread got exactly the correct
-    results of its calls, in order. -/
-theorem concurrent_rsa_correct {σ ρ : Type} (res : ρ → List Nat) (good : σ → Prop)
-    (stepR : Nat → σ → σ × Nat) (correct : Nat → Nat)
-    (hgood : ∀ m s, good s → good (stepR m s).1 ∧ (stepR m s).2 = correct m)
-    (sem : Nat → List (Act σ ρ))
-    (hshape : ∀ m, kinds (sem m) =
+/-- Generic form: operations on a lock-protected object that keep an invariant `good` of the
+    shared state and return `correct o` whenever the invariant holds (and the call's arguments
+    satisfy `ok`).  `sem` is any statement-level semantics with the action kinds generated from
+    `_rawPrivateKeyOp` and `stepR` as sequential composition.  After every complete interleaving
+    the invariant holds and every thread got exactly the correct results of its calls, in order. -/
+theorem lock_protected_invariant {σ ρ ω : Type} (res : ρ → List Nat) (good : σ → Prop)
+    (ok : ω → Prop) (stepR : ω → σ → σ × Nat) (correct : ω → Nat)
+    (hgood : ∀ o s, ok o → good s → good (stepR o s).1 ∧ (stepR o s).2 = correct o)
+    (sem : ω → List (Act σ ρ))
+    (hshape : ∀ o, kinds (sem o) =
         shapeOf Gen.Locks.pythonRSAKey Gen.Locks.pythonRSAKey_rawPrivateKeyOp)
-    (hseq : ∀ m s l, (runActs (sem m) (s, l)).1 = (stepR m s).1 ∧
-                     res (runActs (sem m) (s, l)).2 = res l ++ [(stepR m s).2])
-    (T : Nat → List Nat) (s0 : σ) (hs0 : good s0) (l0 : Nat → ρ) (hl0 : ∀ t, res (l0 t) = [])
+    (hseq : ∀ o s l, (runActs (sem o) (s, l)).1 = (stepR o s).1 ∧
+                     res (runActs (sem o) (s, l)).2 = res l ++ [(stepR o s).2])
+    (T : Nat → List ω) (hT : ∀ t, ∀ o ∈ T t, ok o)
+    (s0 : σ) (hs0 : good s0) (l0 : Nat → ρ) (hl0 : ∀ t, res (l0 t) = [])
     (c : Cfg σ ρ) (hrun : Steps (initCfg (fun t => (T t).map sem) s0 l0) c) (hfin : Final c) :
     good c.sh ∧ ∀ t, res (c.th t).loc = (T t).map correct := by
   have hwf : AllSharedAccessInsideLock (fun t => (T t).map sem) := by
@@ -269,26 +268,55 @@ theorem concurrent_rsa_correct {σ ρ : Type} (res : ρ → List Nat) (good : σ
     rw [hshape m]
     decide
   obtain ⟨order, hsh, hloc, hops⟩ := lock_gives_atomicity _ hwf s0 l0 c hrun hfin
-  have h0 : InvHist res sem correct T good (initSCfg (fun t => (T t).map sem) s0 l0) :=
-    ⟨hs0, T, fun t => rfl, fun t => by
+  have h0 : InvHist res sem correct ok T good (initSCfg (fun t => (T t).map sem) s0 l0) :=
+    ⟨hs0, T, fun t => rfl, hT, fun t => by
       show res (l0 t) ++ _ = _
       rw [hl0 t]; rfl⟩
-  have hh := invHist_run res sem correct T good stepR hgood hseq order _ h0
-  obtain ⟨rem, hrem, hT⟩ := hh.rem
+  have hh := invHist_run res sem correct ok T good stepR hgood hseq order _ h0
+  obtain ⟨rem, hrem, _, hTT⟩ := hh.rem
   refine ⟨hsh ▸ hh.good, ?_⟩
   intro t
   have hnil : rem t = [] := by
     have := hops t
     rw [hrem t] at this
     exact List.map_eq_nil_iff.mp this
-  have := hT t
+  have := hTT t
   rw [hnil, hloc t] at this
   simpa using this
 
-/-- the hypotheses are satisfiable (a counter that is doubled stands in for the blinding pair) -/
-example : ∃ (good : Nat → Prop) (stepR : Nat → Nat → Nat × Nat) (correct : Nat → Nat),
-    (∀ m s, good s → good (stepR m s).1 ∧ (stepR m s).2 = correct m) ∧ good 1 :=
-  ⟨fun s => 0 < s, fun m s => (2 * s, m * s / s), fun m => m,
-   fun m s h => ⟨by show 0 < 2 * s; omega, Nat.mul_div_cancel m h⟩, by decide⟩
+/-- Any number of threads, each performing any number of private operations
+    `key._rawPrivateKeyOp(m)` on one shared key.  The shared state is the blinding pair
+    (`Tls.Rsa.Blind`, C10's model); a call is (random number drawn if the pair is unset, message).
+    For a well-formed key (C10's `ValidKey`: p ≠ q primes > 2, n = p·q, e·d ≡ 1, CRT exponents and
+    qInv consistent), an initial pair that is unset or consistent, and invertible first
+    unblinders: `sem` is any statement-level semantics of the method whose action kinds are the
+    ones generated from the source and whose sequential composition is C10's
+    `rawPrivateKeyOp` (locked section = `blindStep`, then blind / CRT helper / unblind).
+    Under EVERY interleaving every result equals `m^d mod n` and the pair stays consistent
+    (`blinder · unblinder^e ≡ 1 (mod n)`).  No algebra is assumed: it is C10's
+    `rawPrivateKeyOp_root` / `root_unique` / `blindStep_spec` (TlsProofs/RsaCorrect.lean). -/
+theorem concurrent_rsa_correct {ρ : Type} (res : ρ → List Nat) (k : Rsa.PrivKey)
+    (vk : Rsa.ValidKey k)
+    (sem : Rsa.Call → List (Act Rsa.Blind ρ))
+    (hshape : ∀ o, kinds (sem o) =
+        shapeOf Gen.Locks.pythonRSAKey Gen.Locks.pythonRSAKey_rawPrivateKeyOp)
+    (hseq : ∀ (o : Rsa.Call) s l,
+        (runActs (sem o) (s, l)).1 = (Rsa.rawPrivateKeyOp k s o.1 o.2).2 ∧
+        res (runActs (sem o) (s, l)).2 = res l ++ [(Rsa.rawPrivateKeyOp k s o.1 o.2).1])
+    (T : Nat → List Rsa.Call)
+    (hrnd : ∀ t, ∀ o ∈ T t, Rsa.invMod o.1 k.pub.n * o.1 % k.pub.n = 1)
+    (s0 : Rsa.Blind) (hs0 : Rsa.BlindOk k s0) (l0 : Nat → ρ) (hl0 : ∀ t, res (l0 t) = [])
+    (c : Cfg Rsa.Blind ρ) (hrun : Steps (initCfg (fun t => (T t).map sem) s0 l0) c)
+    (hfin : Final c) :
+    Rsa.BlindOk k c.sh ∧ ∀ t, res (c.th t).loc = (T t).map (fun o => o.2 ^ k.d % k.pub.n) :=
+  lock_protected_invariant res (Rsa.BlindOk k) (Rsa.CallOk k) (Rsa.callStep k) (Rsa.callCorrect k)
+    (fun o s ho hs => Rsa.callStep_good vk o s ho hs) sem hshape hseq T hrnd s0 hs0 l0 hl0 c hrun hfin
+
+/-- non-vacuity: a well-formed key, a fresh pair and calls with invertible random numbers exist,
+    and C10's model really computes m^d mod n on them -/
+example : Rsa.ValidKey Rsa.toyKey ∧ Rsa.BlindOk Rsa.toyKey ⟨0, 0⟩ ∧
+    (∀ o ∈ [((2, 3) : Rsa.Call), (4, 17)], Rsa.invMod o.1 Rsa.toyKey.pub.n * o.1 % Rsa.toyKey.pub.n = 1) ∧
+    (Rsa.rawPrivateKeyOp Rsa.toyKey ⟨0, 0⟩ 2 3).1 = 3 ^ 5 % 35 :=
+  ⟨Rsa.toyKey_valid, Or.inl rfl, by decide, by decide⟩
 
 end Tls.C18
